@@ -277,9 +277,24 @@ def required_stream():
     return [dict(c) for c in _REQUIRED]
 
 
+def write_required():
+    """(re)write corpus/C07/req_*.json: the greedy cover is computed once (it needs ~1000 implementation runs) and kept
+    as corpus cases, which ./check runs first under every seed and tier.  Run after changing the generator:
+    PYTHONPATH=/repo PYTHONHASHSEED=0 /venv/bin/python -c "from harness import c07; c07.write_required()" """
+    import os
+    d = os.path.join(C.CORPUS, PROP)
+    os.makedirs(d, exist_ok=True)
+    for fn in os.listdir(d):
+        if fn.startswith("req_"):
+            os.remove(os.path.join(d, fn))
+    for k, c in enumerate(required_stream()):
+        with open(os.path.join(d, f"req_{k:03d}.json"), "w") as f:
+            json.dump(c, f)
+
+
 def generate(rng, tier):
     n = 740 if tier == "quick" else 20000
-    cases = required_stream() + [gen_case(rng, tier) for _ in range(n)]
+    cases = [gen_case(rng, tier) for _ in range(n)]
     if tier == "thorough":
         cases += exhaustive(rng)
     return cases
